@@ -6,13 +6,13 @@ props = [json.loads(l) for l in open(os.path.join(ROOT, "properties.jsonl"))]
 
 CHECKS = {
  "C01": dict(category="proof",
-   text="Lean theorems about the solver model (the loop head returns SOLVED only when the termination test holds for the diagnostics it computed; clause-by-clause meaning of the test; termination of the main loop is accepted by Lean's checker on the real loop body) + exact white-box correspondence of the whole-solver model with the real DenseSolver<Q>/SparseSolver<Q,int,Mode> templates (exact rational scalar) on 5 back ends x {Ruiz, identity} x all 16 bound patterns at n=2 and random problems/settings; every SOLVED result of the implementation is certified exactly (Lean predicate certFails: stationarity, primal feasibility, gap, signs, for the user's unscaled data).",
+   text="Lean theorem solved_certificate: for every back end (arbitrary inner factorisation), every factorisation-failure pattern, refinement on or off, if the solver state is a coherent change of variables of the user's data (C15 Scaled + InvFull, proved for scale_data) and the main loop returns SOLVED, then at the returned iterate, unscaled, every entry of the user's stationarity residual, every equality/inequality row and every packed bound slot of the user's primal residual is below eps_abs + eps_rel*(reported relative scale), the gap test holds if requested and the reported objectives are the user's. Ingredients, each a theorem: solved_implies_termination_test (loop logic, every LoopOps), loop_solved_fresh (the residual fields the test reads belong to the returned iterate, incl. the retry paths after a boundary shift), dual_residual_is_users / primal_residuals_are_users / objectives_are_users (scaling algebra). Tie: exact white-box correspondence of the whole-solver model with the real DenseSolver<Q>/SparseSolver<Q,int,Mode> templates on 5 back ends x {Ruiz, identity} x all 16 bound patterns at n=2 and random problems/settings/update histories; every SOLVED result of the implementation is certified exactly (Lean predicate certFails for the user's unscaled data).",
    design_ref="§6 C01", technique="Lean 4 proof over the solver model + exact-rational differential correspondence + exact certificate predicate",
-   note="exact arithmetic only (rounding not modelled); exact runs limited to 1-2 IPM iterations on n<=4; the scaling-algebra theorem (unscaled certificate from scaled test) is work in progress, the correspondence currently carries that part"),
+   note="exact arithmetic only (rounding not modelled); exact runs limited to 1-2 IPM iterations on n<=4; the certificate theorem is stated for the Ruiz preconditioners (identity is the trivial instance) and for the packed bound multipliers (C08 restore_after_setupLb/Ub gives the per-variable form)"),
  "C04": dict(category="proof",
-   text="Theorem updateTyped_frame (update touches only data/preconditioner/KKT caches and forces a rebuild of the scaling part) + exact white-box correspondence after every op over all 2^8 argument subsets x reuse x solve-in-between, random longer histories incl. repeated setup and h crossing the infinity threshold; every SOLVED after updates is certified exactly for the effective data.",
+   text="Lean theorems setup_good / update_good / solve_good: the invariant Good (stored data = effective data under the preconditioner's change of variables, inverse scalings coherent, every KKT cache in agreement with the stored data) is established by setup and preserved by update for every subset of the 8 arguments, dense or sparse P update, either reuse_preconditioner value, and by solve through every rescaling and refactorisation; solve_solved_certificate: SOLVED after any such history carries the optimality certificate of the data the solver was updated to (C01 applied to the coherent state); updateTyped_frame. Tie: exact white-box correspondence after every op over all 2^8 argument subsets x reuse x solve-in-between, random longer histories incl. repeated setup and h crossing the infinity threshold; every SOLVED after updates is certified exactly for the effective data.",
    design_ref="§6 C04", technique="Lean 4 proof (frame/invariant over operations) + exact-rational white-box correspondence over update histories",
-   note="coherence invariant theorem is partial (frame only); the exact correspondence carries cache coherence on the enumerated histories; convergence comparisons with a fresh solver in double precision are not part of this check yet"),
+   note="theorems cover the Ruiz preconditioners; 'same trajectory as a fresh solver' (reuse=false) is carried by the exact correspondence, not by a theorem; known finding F16b (h made finite again without G) is a defect of the effective-data semantics itself and is reported as KNOWN-FINDING"),
  "C05": dict(category="proof",
    text="Theorem rejected_is_identity: for every state and every call the model reports as rejected (any argument with a wrong size, sparse nnz/pattern mismatch, call before setup, rejected setup) the state is unchanged. Tie: the model's rejection classification and messages are compared with the real code on every kind of invalid call injected at every position of valid histories; the implementation's white-box state is compared across the rejected call and all later outputs with a twin history, exactly.",
    design_ref="§6 C05", technique="Lean 4 proof (state-machine: rejected call = identity) + exact differential correspondence with injected invalid calls and twin histories",
@@ -22,15 +22,15 @@ CHECKS = {
    design_ref="§6 C07", technique="Lean 4 proof (no shared state) + tagged-uninitialised exact scalar run of the real templates",
    note="partial: real heap/stack pre-states, object relocation and threads are runtime behaviour not exhibited by the model; Eigen-internal scratch is trusted"),
  "C08": dict(category="proof",
-   text="Theorem swapLoop_mem (restore_box_dual only permutes) and the well-formedness predicate wellFormedFails evaluated exactly on results equal to the implementation's for all 4^n finite/infinite bound patterns (n=2 all back ends and preconditioners, n=3) and iteration budgets 1,2: exact 0 / +inf at infinite bounds, positivity of slacks, non-negativity of multipliers, original indexing.",
+   text="Lean theorems restoreBox_spec / restore_after_setupLb / restore_after_setupUb (for every n and every finite/infinite pattern the descending swap loop puts packed slot t at variable idx t and exactly the fill value, 0 resp. +inf, at every variable without a finite bound; the packing produced by setup_lb_data/setup_ub_data is strictly increasing: packLoop_inv), step_in_cone / stepNumOp_in_cone / mainLoop_in_cone (strict positivity of every active slack and multiplier is an invariant of the fraction-to-boundary rule for EVERY direction and of the whole main loop at every exit and every iteration budget, every back end, every factorisation outcome), swapLoop_mem. Tie: wellFormedFails evaluated exactly on results equal to the implementation's for all 4^n bound patterns (n=2 all back ends and preconditioners, n=3), budgets 1,2 and re-solves with n_lb != n_ub.",
    design_ref="§6 C08", technique="Lean 4 proof (index loop) + exhaustive bound-pattern enumeration at T=Q with an exact well-formedness predicate",
-   note="restore_box_dual_spec and cone_preserved theorems are work in progress; budgets > 2 need double precision"),
+   note="exact arithmetic: overflow to +-inf in double is outside the model; the initial point's Mehrotra shift is tied by the exact correspondence, its positivity is not a theorem; budgets > 2 need double precision"),
  "C09": dict(category="proof",
    text="Theorem phaseA_status_eq_info (+ loop structure) and exact evaluation of diagFails: after every solve of the real solver at T=Q, info.status/iter/primal_obj/dual_obj/duality_gap (and primal_inf/dual_inf for verdict statuses) are compared for exact equality with the quantities recomputed from the user's unscaled data at the returned point, incl. scale_cost=true.",
    design_ref="§6 C09", technique="Lean 4 proof + exact diagnostics predicate on exact-rational runs of the real templates",
    note="exact arithmetic; MAX_ITER primal_inf/dual_inf are not claimed (property restriction)"),
  "C10": dict(category="proof",
-   text="Theorem upperOfMat_reads_upper_only (two P arguments agreeing on the upper triangle are stored identically) + exact differential runs: the four sparse KKT formulations give identical rationals on the same problem/settings (refinement off), and P supplied upper / full / upper+garbage-lower gives the identical complete output in setup() and update() on all five back ends.",
+   text="Lean theorems upperOfMat_reads_upper_only (two P arguments agreeing on the upper triangle are stored identically) and backends_agree_exact (any two back ends with coherent reduced matrices and exact inner solves return steps with the same image under the full Newton operator, hence equal steps when it is injective; from C13). Tie: the four sparse KKT formulations give identical rationals on the same problem/settings (refinement off), and P supplied upper / full / upper+garbage-lower gives the identical complete output in setup() and update() on all five back ends.",
    design_ref="§6 C10", technique="Lean 4 proof (only utri(P) is read) + exact-rational equality across formulations and P storages",
    note="agreement of dense vs sparse 'within tolerance' in floating point is not decided here"),
  "C02": dict(category="other",
@@ -54,13 +54,13 @@ CHECKS = {
    design_ref="§6 C12", technique="Lean 4 proof (state machine, all oracles) + exhaustive fault-mask runs with bit-exact trace replay",
    note="'transient failures do not prevent convergence' is monitored (numerical behaviour), not proved"),
  "C14": dict(category="proof",
-   text="Spec-level theorems on the dense Schur-complement recursions the model uses for LDL'/LL' (permutation round trip; LDL' correctness theorems are being added) + exhaustive exact correspondence of the pattern-dependent code: sparse::LDLt (elimination tree, symbolic column counts, numeric up-looking factorisation, solves) on ALL upper-triangular patterns with full diagonal for n<=5 x quasi-definite value sets incl. exact zero-pivot-inducing ones x all permutations n<=4, random larger patterns; dense LDLTNoPivot Lower/Upper across the blocking threshold; permute_sparse_symmetric_matrix with its value-index map, transpose_no_allocation, pre/post_mult_diagonal and AMD consistency. Because pivot-free LDL' factors are unique, equality of L and D with the model is 'L D L' = A' on those inputs.",
+   text="Spec-level theorems on the dense Schur-complement recursions the model uses for LDL': ldlt_correct (symmetric input, no zero pivot => L D L' = A with L unit lower), ldltSolve_correct, permt_perm_id + exhaustive exact correspondence of the pattern-dependent code: sparse::LDLt (elimination tree, symbolic column counts, numeric up-looking factorisation, solves) on ALL upper-triangular patterns with full diagonal for n<=5 x quasi-definite value sets incl. exact zero-pivot-inducing ones (every pivot position) x all permutations n<=4, dense LDLTNoPivot (blocked/unblocked, Lower/Upper) across the blocking thresholds with zero pivots at block boundaries, CSC utilities, AMD consistency.",
    design_ref="§6 C14", technique="Lean 4 spec-level proof + exhaustive exact-rational correspondence of the pattern-dependent kernels",
    note="the refinement sparse symbolic/numeric code -> spec is carried by the exhaustive tie (n<=5) and random patterns, not by a theorem; Eigen AMD only checked for consistency"),
  "C15": dict(category="proof",
-   text="Theorems: with InvCoherent (each inverse scaling is the inverse on the active range) every scale_*/unscale_* pair proved so far (primal, dual eq/ineq/lb, slack lb, cost) are mutual inverses; init is coherent. Tie: after setup and after every update of histories over preconditioner_iter in {0,1,2,3,10} x scale_cost x dense/sparse x all transitions between bound patterns (reuse or not), the Lean predicate precondFails checks on the state (compared exactly with the implementation's, incl. the private scaling vectors) that the scaled data equal the user's data transformed by the reported scalings and that every inverse is an inverse on the active indices.",
+   text="Lean theorems: ruizLoop_applied / scaleData_scaled (for both Ruiz variants, every iteration budget, every sqrt, cost scaling on or off, fresh or reused scaling: the data scale_data leaves behind are the data it was given transformed by the scalings it reports), scaleData_invFull (inverse vectors are inverses on their full length; needs only positive scaling limits and sqrt(x) != 0 for x > 0), unscale_scale_data (unscale_data o scale_data = identity on P's stored triangle, c, A, G, b, h and the active bound slots), the scale_*/unscale_* pairs under InvCoherent, init_invCoherent. Tie: after setup and after every update of histories over preconditioner_iter in {0,1,2,3,10} x scale_cost x dense/sparse x all transitions between bound patterns (reuse or not) with settings changes between rescalings, the Lean predicate precondFails checks on the state (compared exactly with the implementation's) that scaled data = change of variables of the effective data and that every round trip is exact.",
    design_ref="§6 C15", technique="Lean 4 proof (scaling algebra) + exact white-box correspondence with a change-of-variables predicate",
-   note="the Ruiz-loop invariant theorem (data = apply S data0 for every iteration count) is carried by the exact correspondence, not yet by a theorem"),
+   note="exact arithmetic; that Ruiz equilibration actually improves conditioning is not claimed"),
  "C18": dict(category="other",
    text="All theorems are parametric in the scalar type. Compilation and execution of the 72 instantiations T in {float,double,long double,cpp_bin_float<100>} x I in {int,long long} x 5 back ends x {Ruiz,identity} is a fact about template instantiation: decided by the build matrix (quick: covering subset with every (T, back end) pair; thorough: all), each solving well-posed problems to SOLVED with a certificate recomputed in exact rationals and higher-precision solutions agreeing with double.",
    design_ref="§6 C18", technique="scalar-generic Lean theorems + compile-and-run instantiation matrix",
@@ -82,7 +82,7 @@ CHECKS = {
    design_ref="§6 C20", technique="Lean 4 proof (round trip over abstract MAT store) + bitwise differential correspondence through libmatio",
    note="libmatio trusted as a name->variable store; values opaque bit patterns; Lean kernel"),
  "C13": dict(category="proof",
-   text="Lean theorems: for each of the five back ends the step returned by the model's KKT solve satisfies the full un-eliminated regularised Newton system whenever the inner factorisation solves the reduced system; cache refreshes equal a fresh build when the option mask covers what changed; refinement never increases the residual. The model (executed at exact rationals) is compared on every run with the real dense::KKT<Q>/sparse::KKT<Q,int,Mode> instantiated with an exact scalar, on random and enumerated op sequences, as exact strings; the property is also evaluated directly on the implementation's exact outputs.",
+   text="Lean theorems, each a single statement quantified over all five back ends, all dimensions, data, box packings: solve_solves_full_system (Coherent reduced matrix + exact inner solve + interior scalings => multiply(solve r) = r on all eight block rows, inactive box tails untouched), factor_then_solve_exact, init_coherent / init_cachesOk, refresh_coherent, updateScalings_coherent, updateData_ok (every option mask, given the flagged blocks are what changed: refreshing in place = building anew), refineLoop_not_worse / solve_refined_not_worse (needs min_improvement_rate >= 1, which Settings::verify enforces), plus a concrete non-vacuity example. The model (executed at exact rationals) is compared on every run with the real dense::KKT<Q>/sparse::KKT<Q,int,Mode> instantiated with an exact rational scalar: random systems, all 8 update_data masks x 5 back ends with fresh-build twins, refinement pairs; multiply(solve(r)) = r is also checked exactly on the implementation's own output.",
    design_ref="§6 C13", technique="Lean 4 proof (elimination theorems over an ordered field) + exact-rational differential correspondence with the real templates",
    note="Lean kernel + propext/Classical.choice/Quot.sound; hand-written model tied by tie A (finite sample); dense denotation of sparse matrices; IEEE rounding not modelled"),
 }
@@ -115,7 +115,7 @@ def main():
             "guard": "PIQP_VERIF",
             "enable": "harnesses under /verif/harness are compiled against /repo/include with -DPIQP_VERIF",
             "baseline_off_cmd": "cmake --build /repo/_build -j16 && ctest --test-dir /repo/_build/tests -j8 --timeout 900; ctest --test-dir /repo/_build/interfaces/c/tests -j8 --timeout 900",
-            "source_commits": [],
+            "source_commits": ["26041b3"],
             "add_only": True,
         },
         "engines": [
